@@ -5,6 +5,7 @@
 set -u
 SD=$(readlink -f "$1"); PKG="$2"; shift 2
 export GOFLAGS=-mod=mod GOPROXY=off
+if [ -z "${SKIP_CONFIRM:-}" ]; then
 WT=$(mktemp -d /tmp/seedchk-XXXXXX)
 git -C /repo worktree add -q --detach "$WT" HEAD || exit 2
 cleanup() { git -C /repo worktree remove --force "$WT" >/dev/null 2>&1; rm -rf "$WT"; }
@@ -17,6 +18,7 @@ if ( cd "$WT" && go test -vet=off -count=1 -run 'Seeded|seeded|Demo' ./$PKG/ >/t
 ( cd "$WT" && git apply -R "$SD/patch.diff" )
 if ( cd "$WT" && go test -vet=off -count=1 -run 'Seeded|seeded|Demo' ./$PKG/ >/tmp/seedchk-demo2.log 2>&1 ); then echo "CONFIRM: demo passes without the change"; else echo "CONFIRM: demo FAILS without the change"; tail -15 /tmp/seedchk-demo2.log; exit 2; fi
 cleanup; trap - EXIT
+fi
 # against /repo itself
 if ! git -C /repo diff --quiet; then echo "/repo is dirty"; exit 2; fi
 git -C /repo apply "$SD/patch.diff" || exit 2
